@@ -189,6 +189,7 @@ class LazyComp:
     g: object
     seq: object
     env: dict
+    _len: object = None
 
 
 @dataclass
@@ -321,6 +322,10 @@ def to_U(v):
         return u_of_str(z3.StringVal(v))
     if isinstance(v, int):
         return u_of_int(z3.IntVal(v))
+    if isinstance(v, LazyComp):
+        return z3.Const(f"comprehension!{id(v)}", U)  # opaque: nothing is assumed about it
+    if isinstance(v, Ref):
+        return z3.Const(f"ref!{v.n}", U)
     if isinstance(v, GlobalV):
         return z3.Const(f"global:{v.dotted}", U)
     if isinstance(v, ClassV):
@@ -603,6 +608,10 @@ class Engine:
             return v.length > 0
         if isinstance(v, (ExcV, ClassV, FuncV, GlobalV, BoundV)):
             return True
+        if isinstance(v, LazyComp):
+            from pyvc.builtins_ import lazy_len
+
+            return lift(lazy_len(self, st, v)) > 0
         raise Unsupported(f"truthiness of {type(v).__name__}")
 
     def oblige(self, st, clause, goal, role="auxiliary", where=""):
